@@ -62,6 +62,14 @@ add("C11", "Hypothesis margin-targeted rectangle pairs and families vs per-verte
     "are compared with the exact non-dominated family.",
     "Band 1e-9*scale; LP certificates verified by arithmetic.", "DESIGN.md section 3 C11")
 
+add("C19", "Hypothesis generated value sets vs NNLS/least-distance oracles, definitional shift test, F1 recomputation and metamorphic laws, independent hypervolume",
+    "get_delta/get_smallmij are compared with min_n w_n.d/alpha_n under NNLS alpha and with the definition itself (shifted copies along unit cone "
+    "directions); is_covered/get_uncovered_* with a least-distance programme carrying a dual bound; calculate_epsilonF1_score with an independent "
+    "recomputation plus range / truth=1 / order-invariance / monotone-in-eps laws; the hypervolume routine with an independent slicing computation "
+    "through a recording wrapper (true >= predicted, value = log difference).",
+    "eps drawn >= 1% away from critical distances; band 1e-3*scale for solver-decided coverage; hypervolume with K<=3 facets and 32..128 Sobol points "
+    "(sampler rebound at module level).", "DESIGN.md section 3 C19")
+
 PENDING = {}
 
 
